@@ -160,6 +160,7 @@ func (r *validationResponseHandler) HandleValidationResponse(
 			// RFC 9111 §4.2.4 Serving Stale Responses
 			// RFC 9111 §4.3.3 Handling Validation Responses (5xx errors)
 			StripNoCacheFields(ctx.Stored.Data.Header, storedCC)
+			StripNoCacheFields(ctx.Stored.Data.Trailer, storedCC)
 			SetAgeHeader(ctx.Stored.Data, r.clock, ctx.Freshness.Age)
 			CacheStatusStale.ApplyTo(ctx.Stored.Data.Header)
 			r.l.LogCacheStaleIfError(req, ctx.URLKey, ctx.ToMisc(storedCC))
